@@ -685,7 +685,16 @@ def _tri_tok(e, tokname, cls):
             and unparse(e.args[0]) == tokname:
         c = e.args[1]
         names = [unparse(x).split('.')[-1] for x in (c.elts if isinstance(c, ast.Tuple) else [c])]
-        return True if cls in names else None
+        # the token classes of defs.py all derive directly from TextToken (flat hierarchy, checked by TC1's table)
+        if cls in names or 'TextToken' in names or 'Printable' in names or 'object' in names:
+            return True
+        return False if all(n_.endswith('Token') for n_ in names) else None
+    if isinstance(e, ast.Compare) and len(e.ops) == 1 and isinstance(e.left, ast.Name) and e.left.id == tokname \
+            and isinstance(e.comparators[0], ast.Constant) and e.comparators[0].value is None:
+        if isinstance(e.ops[0], (ast.Is, ast.Eq)):
+            return False
+        if isinstance(e.ops[0], (ast.IsNot, ast.NotEq)):
+            return True
     return None
 
 
